@@ -130,6 +130,7 @@ func (n *NSQD) lookupLoop() {
 				}
 			}
 		case val := <-n.notifyChan:
+			verifPoint("lookup:notify-received")
 			var cmd *nsq.Command
 			var branch string
 
